@@ -126,11 +126,10 @@ def crate_obligations(crate):
     """All obligations (thorough tier) of every props file whose CRATE is `crate`: one replay binary per
     crate, so that switching between properties does not rebuild it."""
     out = []
-    for f in sorted(os.listdir(os.path.join(HERE, "props"))):
-        if re.match(r"^C\d+\.py$", f):
-            pm = load_props(f[:-3])
-            if pm.CRATE == crate:
-                out += [(f[:-3], o) for o in pm.obligations("thorough")]
+    for _, f in prop_files():
+        pm = load_props(f[:-3])
+        if pm.CRATE == crate:
+            out += [(f[:-3], o) for o in pm.obligations("thorough")]
     return out
 
 
@@ -494,7 +493,7 @@ class Runner:
             return
         known = []
         try:
-            known = [k for k in json.load(open(os.path.join(VERIF, "known_findings.json"))).get("known", [])
+            known = [k for k in json.load(open(os.environ.get("VERIF_KNOWN_FINDINGS", os.path.join(VERIF, "known_findings.json")))).get("known", [])
                      if k.get("property") == self.prop and k.get("key") == key]
         except Exception:
             pass
@@ -568,8 +567,22 @@ class Runner:
 # ------------------------------------------------------------------------------------------------------
 # driver interface
 # ------------------------------------------------------------------------------------------------------
+PROP_DIRS = ("props", "props_experimental")      # the driver runs E2 only for props/<Cnn>.py; props_experimental/ is stand-alone only
+
+
+def prop_files():
+    out = []
+    for d in PROP_DIRS:
+        p = os.path.join(HERE, d)
+        if os.path.isdir(p):
+            out += [(d, f) for f in sorted(os.listdir(p)) if re.match(r"^C\d+\.py$", f)]
+    return out
+
+
 def load_props(prop):
-    sys.path.insert(0, os.path.join(HERE, "props"))
+    for d in PROP_DIRS:
+        if os.path.join(HERE, d) not in sys.path:
+            sys.path.insert(0, os.path.join(HERE, d))
     if prop in sys.modules:
         return importlib.reload(sys.modules[prop])
     return importlib.import_module(prop)
@@ -585,18 +598,17 @@ def setup():
             log(f"setup: mir2smt MIR dump of {crate} FAILED: {e}")
             rc = 1
     done = set()
-    for f in sorted(os.listdir(os.path.join(HERE, "props"))):
-        if re.match(r"^C\d+\.py$", f):
-            pm = load_props(f[:-3])
-            if pm.CRATE in done:
-                continue
-            done.add(pm.CRATE)
-            n = Native(pm.CRATE)
-            ok = n.build()
-            log(f"setup: mir2smt replay crate for {pm.CRATE}: {'ok' if ok else 'FAILED'}")
-            if not ok:
-                log(n.err)
-                rc = 1
+    for _, f in prop_files():
+        pm = load_props(f[:-3])
+        if pm.CRATE in done:
+            continue
+        done.add(pm.CRATE)
+        n = Native(pm.CRATE)
+        ok = n.build()
+        log(f"setup: mir2smt replay crate for {pm.CRATE}: {'ok' if ok else 'FAILED'}")
+        if not ok:
+            log(n.err)
+            rc = 1
     return rc
 
 
